@@ -166,6 +166,7 @@ func runC01Enumerated(ctx *h.Ctx) {
 			if !res.OK() {
 				k.Count("rejected", 1)
 				k.Count("rejected: "+rejectFamily(res.ErrString()), 1)
+				rejectedValid(k, g.Prog, res, false)
 				return
 			}
 			f := asm.Parse(res.Out)
@@ -181,8 +182,15 @@ func runC01Enumerated(ctx *h.Ctx) {
 			for {
 				st := ref.NewDecState(dec)
 				rt := in.Run(st)
-				vt := vm.Run(st.Freeze())
+				fz := st.Freeze()
+				vt := vm.Run(fz)
 				paths++
+				if fz.Unseen > 0 {
+					// every condition of a skeleton is one flag with its own operand: the assembly may only test what
+					// the source tested on this path
+					k.Violation("assembly-tests-more", fmt.Sprintf("[optimize=%v] skeleton %s, decisions %v: the assembly tests %d flag(s)/var(s) that the source does not test on this path", opt, sk, dec, fz.Unseen), map[string]interface{}{"output": res.Out})
+					return
+				}
 				a, b := rt.Cmds(), vt.Cmds()
 				if len(vt.Problems) > 0 || !eqStrings(a, b) {
 					k.Violation("", fmt.Sprintf("[optimize=%v] skeleton %s, decisions %v: %s\n%s", opt, sk, dec, strings.Join(vt.Problems, "; "), diffTraces(a, b)), map[string]interface{}{"output": res.Out})
